@@ -8,6 +8,8 @@ pub mod c05;
 pub mod c06;
 pub mod c07;
 pub mod c08;
+pub mod c09;
+pub mod c10;
 pub mod pairs;
 pub mod util;
 
@@ -23,6 +25,8 @@ pub fn run(ctx: &Ctx) -> PropResult {
         "C06" => c06::run(ctx),
         "C07" => c07::run(ctx),
         "C08" => c08::run(ctx),
+        "C09" => c09::run(ctx),
+        "C10" => c10::run(ctx),
         other => Err(format!("no monitor for {}", other)),
     }
 }
